@@ -157,14 +157,14 @@ Definition setattr (S : schema) (o : obj) (i : nat) (v : pv) : obj :=
                match fs, raw with
                | f' :: fs', x :: raw' =>
                    (if opt_nat_eqb (fgroup f') (Some g) && negb (Nat.eqb j i) then PPlaceholder else x)
-                   :: go (S j) fs' raw'
+                   :: go (Datatypes.S j) fs' raw'
                | _, _ => raw
                end) O fs raw in
           Obj c (set_nth i v raw') true unk (set_nth g (Some i) cur)
       end
   end.
 
-(* ---- Cls(**kwargs): dataclass __init__ assigns through __setattr__ BEFORE
+(* ---- Cls(kwargs): dataclass __init__ assigns through __setattr__ BEFORE
         _group_current exists (so no sibling reset happens), then __post_init__
         derives the selection: the last field in declaration order that is not a
         sentinel wins its group; sow = some field is not a sentinel; unknown = b"". ---- *)
@@ -186,7 +186,7 @@ Definition post_init (S : schema) (c : nat) (raw : list pv) : obj :=
                        | Some g => if is_sentinel f v then cur else set_nth g (Some j) cur
                        | None => cur
                        end in
-           go (S j) fs' raw' cur'
+           go (Datatypes.S j) fs' raw' cur'
        | _, _ => cur
        end) O fs raw (repeat None (cngroups cd)) in
   let all_sentinel :=
